@@ -20,3 +20,12 @@ func ZVRemarshalTBS(der []byte) ([]byte, error) {
 	tbs.Raw = nil
 	return asn1.Marshal(tbs)
 }
+
+// ZVC06OIDs returns, by variable name, the object identifiers parseCertificate's no-CT filter loop can refer to.
+func ZVC06OIDs() map[string][]int {
+	return map[string][]int{
+		"oidExtensionCTPrecertificatePoison":         oidExtensionCTPrecertificatePoison,
+		"oidExtensionSignedCertificateTimestampList": oidExtensionSignedCertificateTimestampList,
+		"oidExtSignedCertificateTimestampList":       oidExtSignedCertificateTimestampList,
+	}
+}
